@@ -47,11 +47,37 @@ def gen(ctx, uni):
     return hs
 
 
+def single_record_histories(uni):
+    """one NONE- / ALL-qualified record of every decoder that usually sees a START..END window (page fault, sampler, launch,
+    the kernel trace records), with words on which the decoder has nothing to reject: exactly one trace, of that record alone"""
+    out = []
+    for name, ws in (('MACH_vmfault', [0, 0x1000, 5, 0]), ('MACH_vmfault', [0, 0x1000, 0, 1]), ('PERF_Event', [0, 0, 0, 0]),
+                     ('DBG_DYLD_TIMING_LAUNCH_EXECUTABLE', [0, 0, 0, 0]), ('TRACE_STRING_GLOBAL', [0, 3, 0x41, 0]),
+                     ('TRACE_STRING_THREADNAME', [0x41, 0, 0, 0]), ('TRACE_DATA_NEWTHREAD', [9, 1, 0, 0]), ('BSC_read', [3, 0, 8, 0])):
+        if name not in uni.by_name:
+            continue
+        c = uni.by_name[name][0]
+        for q in (0, 3):
+            out.append([[1, c, q, ws]])
+            out.append([[1, uni.by_name['BSC_open'][0], 1, [0, 0, 0, 0]], [1, c, q, ws], [1, uni.by_name['BSC_open'][0], 2, [0, 3, 0, 0]]])
+    return out
+
+
 def run(ctx, model_ok):
     uni = pc.Universe()
     hs = gen(ctx, uni)
+    singles = single_record_histories(uni)
+    sres1 = vlib.run_impl('run_pairing.py', {'histories': singles})['results']
+    ctx.evaluations += len(singles)
+    for h, r in zip(singles, sres1):
+        exp = pc.spec_outputs(h, uni)
+        if r['outs'] != exp or r['decoder_errors']:
+            ctx.failing.append({'input': {'history': h}, 'expected': {'windows': exp, 'decoder_errors': {}},
+                                'actual': {'windows': r['outs'], 'decoder_errors': r['decoder_errors']},
+                                'why': 'a NONE- / ALL-qualified record of a decodable code does not produce exactly one trace of that '
+                                       'record alone (the decoder raised on a one-record window, or the window is another one)'})
     res = vlib.run_impl('run_pairing.py', {'histories': hs, 'declared': True})['results']
-    ctx.evaluations = len(hs)
+    ctx.evaluations += len(hs)
     ctx.rule = ('random event histories over 1-4 thread ids x 2-6 codes drawn from {trace-domain, decodable, '
                 'known-but-undecoded, unknown to the table} x the four qualifiers (START/END weighted), lengths 3..60 '
                 '(quick) / 400 (thorough), plus directed histories (re-opened START, crossing pairs, stray END, NONE '
